@@ -253,10 +253,7 @@ impl VSched {
                 .iter()
                 .map(|(name, fr)| ResourceRequestEntry {
                     resource: name.to_string(),
-                    policy: AllocationRequest::Compact(ResourceAmount::new(
-                        (*fr / 10_000) as u32,
-                        (*fr % 10_000) as u32,
-                    )),
+                    policy: policy_of(*fr),
                 })
                 .collect(),
             min_time: Duration::default(),
@@ -279,10 +276,7 @@ impl VSched {
                         .iter()
                         .map(|(name, fr)| ResourceRequestEntry {
                             resource: name.to_string(),
-                            policy: AllocationRequest::Compact(ResourceAmount::new(
-                                (*fr / 10_000) as u32,
-                                (*fr % 10_000) as u32,
-                            )),
+                            policy: policy_of(*fr),
                         })
                         .collect(),
                     min_time: Duration::from_secs(*min_time),
@@ -315,7 +309,7 @@ impl VSched {
                 (
                     r.entries()
                         .iter()
-                        .map(|e| (e.resource_id.as_num(), e.request.min_amount().total_fractions()))
+                        .map(|e| (e.resource_id.as_num(), e.request.amount_or_none_if_all().map(|a| a.total_fractions()).unwrap_or(0)))
                         .collect(),
                     r.min_time().as_secs(),
                 )
@@ -375,7 +369,7 @@ impl VSched {
         rqv.get(ResourceVariantId::new(0))
             .entries()
             .iter()
-            .map(|e| (e.resource_id.as_num(), e.request.min_amount().total_fractions()))
+            .map(|e| (e.resource_id.as_num(), e.request.amount_or_none_if_all().map(|a| a.total_fractions()).unwrap_or(0)))
             .collect()
     }
 
@@ -570,6 +564,15 @@ impl VSched {
 
     pub fn queue_size(&self, rq: u32) -> u32 {
         self.core.split().task_queues.iter().nth(rq as usize).map(|q| q.size()).unwrap_or(0)
+    }
+}
+
+/// amount in fractions; 0 stands for the `All` policy (the whole resource of the worker)
+fn policy_of(fractions: u64) -> AllocationRequest {
+    if fractions == 0 {
+        AllocationRequest::All
+    } else {
+        AllocationRequest::Compact(ResourceAmount::new((fractions / 10_000) as u32, (fractions % 10_000) as u32))
     }
 }
 
